@@ -8,6 +8,7 @@ pub mod mem;
 pub mod nodes;
 pub mod race;
 pub mod replay;
+pub mod sources;
 pub mod stress;
 pub mod trace;
 
